@@ -95,6 +95,42 @@ INEXACT_P1 = tuple(k for k in sorted(P1) if not _exact_nodes(P1[k]))
 DISP = [0.0, 0.5, -0.5, 1.0, -1.0, 0.25, -0.25]
 DISP_FAR = [1.5, -3.0, 6.0, -6.0, 40.0]
 
+# Magnitude regimes.  Interpolation weights depend on RATIOS of lengths only and the result is
+# linear in the values, so the property is invariant under  x -> offset + scale * x  of all
+# coordinates (grid, domain, evaluation points, displacements) and under  f -> vscale * f  of the
+# values.  With powers of two the map is exact in binary arithmetic, so the same exact-equality
+# oracle applies.  The regimes put every length of the configuration below numpy's default
+# absolute tolerance 1e-8 ('tiny', 'vtiny'), every node shift below the default relative
+# tolerance 1e-5 of the coordinates ('far': 1e-5 * offset = 10.5 exceeds the length of the whole
+# domain), resp. far above one ('huge', 'vhuge').
+REGIMES = {
+    'tiny': {'scale': 2.0 ** -30, 'offset': 0.0, 'vscale': 1.0},
+    'huge': {'scale': 2.0 ** 30, 'offset': 0.0, 'vscale': 1.0},
+    'far': {'scale': 1.0, 'offset': 2.0 ** 20, 'vscale': 1.0},
+    'vtiny': {'scale': 1.0, 'offset': 0.0, 'vscale': 2.0 ** -40},
+    'vhuge': {'scale': 1.0, 'offset': 0.0, 'vscale': 2.0 ** 40},
+}
+COORD_REGIMES = ('tiny', 'huge', 'far')
+_BASE_REGIME = {'scale': 1.0, 'offset': 0.0, 'vscale': 1.0}
+
+
+def _regime(cfg):
+    return REGIMES[cfg['reg']] if cfg.get('reg') else _BASE_REGIME
+
+
+def _tr(nodes, reg):
+    """Exact image of the nodes in the regime (configs() only admits exact images)."""
+    out = R.transform(nodes, reg['scale'], reg['offset'])
+    if out is None:
+        raise ValueError('regime %r does not map %r exactly' % (reg, nodes))
+    return out
+
+
+def _reg_ok(node_lists, name):
+    reg = REGIMES[name]
+    return all(R.transform(n, reg['scale'], reg['offset']) is not None for n in node_lists)
+
+
 SAMPLE_STYLES = ['oop', 'oop_kw', 'ip', 'ip_kw', 'ip_kwreq', 'dual', 'dual_kwonly', 'vec',
                  'vec_otypes', 'vec_kw', 'obj', 'obj_ip', 'obj_dual', 'ufunc', 'const',
                  'direct_oop', 'direct_ip', 'direct_dual',
@@ -157,6 +193,22 @@ def configs(tier):
                     out.append({'kind': 'interp', 'grid': grid, 'scheme': sc, 'dtype': dt,
                                 'far': th, 'dense': th or len(grid) < 3,
                                 'farout': len(grid) < 3})
+    # the same in the other magnitude regimes (see REGIMES)
+    r2 = [['n3', 'n4'], ['u2', 's1'], ['s1', 'n3'], ['h3', 'u4'], ['x3', 'n3']]
+    r3 = [['u2', 'n3', 'u2']]
+    if th:
+        r2 = g2
+        r3 += [['n4', 'u2', 'n3'], ['s1', 'u2', 'n3']]
+    for grids in ([[a] for a in g1], r2, r3):
+        for grid in grids:
+            for name in REGIMES:
+                if not _reg_ok([AX[a] for a in grid], name):
+                    continue
+                for sc in _scheme_list(len(grid)):
+                    for dt in (('f64', 'f32', 'c128') if len(grid) == 1 else ('f64',)):
+                        out.append({'kind': 'interp', 'grid': grid, 'scheme': sc, 'dtype': dt,
+                                    'far': th, 'dense': len(grid) < 3, 'farout': False,
+                                    'reg': name})
 
     # ---- sample
     shapes = [[n] for n in (1, 2, 3, 4)]
@@ -176,6 +228,13 @@ def configs(tier):
                 for gt in ('udb', 'nu'):
                     out.append({'kind': 'sample', 'grid': gt, 'shape': shp, 'style': style,
                                 'dtype': 'f64'})
+
+    for shp in ([3], [2, 3], [2, 1, 3]):
+        for style in ('oop', 'ip', 'vec', 'dual', 'obj'):
+            for gt in ('ud', 'udb', 'nu'):
+                for name in COORD_REGIMES:
+                    out.append({'kind': 'sample', 'grid': gt, 'shape': shp, 'style': style,
+                                'dtype': 'f64', 'reg': name})
 
     # ---- sfunc (sampling_function / point_collocation directly)
     for d in (1, 2, 3):
@@ -207,6 +266,37 @@ def configs(tier):
                            ('f64',)):
                     out.append({'kind': 'resample', 'dom': [dom], 'ran': [ran],
                                 'scheme': sc, 'dtype': dt})
+    # magnitude regimes: every 1-d pair again (among them the pairs with the same number of
+    # nodes at different positions: ud4/nu4, ud3/udb3/nu3/nx3), and the derived operators
+    for dom in one:
+        for ran in one:
+            for name in REGIMES:
+                if not _reg_ok([P1[dom], P1[ran]], name):
+                    continue
+                for sc in _scheme_list(1)[:2] + (_scheme_list(1)[4:] if th else []):
+                    out.append({'kind': 'resample', 'dom': [dom], 'ran': [ran],
+                                'scheme': sc, 'dtype': 'f64', 'reg': name})
+            for route in ('inverse', 'adjoint'):
+                for sc in _scheme_list(1)[:2]:
+                    out.append({'kind': 'resample', 'dom': [dom], 'ran': [ran],
+                                'scheme': sc, 'dtype': 'f64', 'route': route})
+    # 2-d: same shape, nodes shifted in one axis / in both axes
+    same2 = [(['ud4', 'ud2'], ['nu4', 'ud2']), (['ud2', 'udb3'], ['ud2', 'nu3']),
+             (['ud4', 'udb3'], ['nu4', 'nu3']), (['nu3', 'ud4'], ['udb3', 'ud4']),
+             (['ud2', 'ud4'], ['ud4', 'nu4'])]
+    for dom, ran in same2:
+        for sc in _scheme_list(2)[:2] + _scheme_list(2)[4:]:
+            for name in (None,) + tuple(REGIMES):
+                for route in (None, 'inverse'):
+                    if name is not None and route is not None and not th:
+                        continue
+                    c = {'kind': 'resample', 'dom': dom, 'ran': ran, 'scheme': sc,
+                         'dtype': 'f64'}
+                    if name is not None:
+                        c['reg'] = name
+                    if route is not None:
+                        c['route'] = route
+                    out.append(c)
     dom2 = [['ud2', 'ud2'], ['ud4', 'ud2'], ['nu3', 'ud4'], ['ud1', 'ud4'], ['udb3', 'ud2']]
     ran2 = [['ud4', 'ud4'], ['ud2', 'ud8'], ['ud1', 'ud4'], ['ud4', 'ud1'], ['ud1', 'ud1'],
             ['nu3', 'udb3'], ['ud2', 'ud2']]
@@ -267,6 +357,30 @@ def configs(tier):
                     for dt in (dts if th or d == 1 else ('f64',)):
                         out.append({'kind': 'deform', 'space': spn, 'scheme': sc, 'via': via,
                                     'dtype': dt})
+                # the derived operator: "Inverse deformation using -v as displacement"
+                if d < 3 or th:
+                    out.append({'kind': 'deform', 'space': spn, 'scheme': sc,
+                                'via': 'FixedDisp.inverse', 'dtype': 'f64'})
+                # derivative w.r.t. the displacement (needs a uniform partition: Gradient)
+                if d < 3 and all(n.startswith('ud') for n in spn):
+                    for name in (None, 'tiny', 'far'):
+                        if name is None or _reg_ok([P1[n] for n in spn], name):
+                            c = {'kind': 'deform', 'space': spn, 'scheme': sc,
+                                 'via': 'FixedTempl.derivative', 'dtype': 'f64'}
+                            if name:
+                                c['reg'] = name
+                            out.append(c)
+                # magnitude regimes (3-d: coordinates in tiny units only, plain schemes)
+                for name in REGIMES:
+                    if not _reg_ok([P1[n] for n in spn], name):
+                        continue
+                    if d == 3 and not th and (name != 'tiny' or sc['fn'] == 'per_axis'):
+                        continue
+                    for via in ('function', 'FixedTempl', 'FixedDisp', 'FixedDisp.inverse'):
+                        if via == 'FixedDisp.inverse' and d == 3:
+                            continue
+                        out.append({'kind': 'deform', 'space': spn, 'scheme': sc, 'via': via,
+                                    'dtype': 'f64', 'reg': name})
     return out
 
 
@@ -301,8 +415,12 @@ def _tol(dt):
     return 1e-5 if np.dtype(dt) == np.dtype('float32') else 1e-12
 
 
-def _same(got, want, exact, dt, mask=None):
-    """Equality of a result with the reference (exact, or the stated relative tolerance)."""
+def _same(got, want, exact, dt, mask=None, unit=1.0):
+    """Equality of a result with the reference (exact, or the stated relative tolerance).
+
+    ``unit``: magnitude of the values in the regime of the state (the tolerance is relative to
+    max(unit, |reference|), so it does not become loose where the values are tiny).
+    """
     got = np.asarray(got)
     want = np.asarray(want)
     if got.shape != want.shape:
@@ -315,7 +433,7 @@ def _same(got, want, exact, dt, mask=None):
         return bool(np.array_equal(got, want))
     if got.size == 0:
         return True
-    scale = max(1.0, float(np.max(np.abs(want))))
+    scale = max(float(unit), float(np.max(np.abs(want))))
     with np.errstate(invalid='ignore'):
         return bool(np.all(np.abs(got - want) <= _tol(dt) * scale))
 
@@ -329,28 +447,44 @@ def _exc(e):
     return 'raises:' + type(e).__name__
 
 
-def _partition(names):
-    """Partition of [0, 4]^d from P1 names, and my own node lists."""
+def _partition(names, reg=_BASE_REGIME):
+    """Partition of [0, 4]^d (regime: of its image) from P1 names, and my own node lists."""
     parts = []
+    lo, hi = _tr([0.0, 4.0], reg)
     for nm in names:
-        nodes = P1[nm]
+        nodes = _tr(P1[nm], reg)
         if nm.startswith('udb'):
-            p = odl.uniform_partition(0, 4, len(nodes), nodes_on_bdry=True)
+            p = odl.uniform_partition(lo, hi, len(nodes), nodes_on_bdry=True)
         elif nm.startswith('ud'):
-            p = odl.uniform_partition(0, 4, len(nodes))
+            p = odl.uniform_partition(lo, hi, len(nodes))
         else:
-            p = odl.nonuniform_partition(nodes, min_pt=0, max_pt=4)
+            p = odl.nonuniform_partition(nodes, min_pt=lo, max_pt=hi)
         parts.append(p)
     part = parts[0]
     if len(parts) > 1:
         part = part.append(*parts[1:])
-    return part, [list(P1[nm]) for nm in names]
+    return part, [_tr(P1[nm], reg) for nm in names]
 
 
-def _space(names, dt):
-    part, nodes = _partition(names)
+def _space(names, dt, reg=_BASE_REGIME):
+    part, nodes = _partition(names, reg)
     sp = odl.DiscretizedSpace(part, odl.tensor_space(part.shape, dtype=NP_DT[dt]))
     return sp, nodes
+
+
+def _own_nodes(rec, sp, nodes, exact):
+    """(nodes, exact) to judge a regime state with.
+
+    Where the nodes of a partition sit is C14's business: if the coordinate vectors of the
+    space are not bit for bit the images of my nodes, the state is judged on the coordinates
+    the space reports, with the stated tolerance (counted under skipped).
+    """
+    got = [[float(v) for v in c] for c in sp.grid.coord_vectors]
+    if got == [list(n) for n in nodes]:
+        return nodes, exact
+    rec.skipped += 1
+    rec.sigs.add('grid nodes are not the exact images')
+    return got, False
 
 
 def _layouts(ndim):
@@ -391,8 +525,8 @@ def _value_layouts(g):
     return out
 
 
-def _generic(nshape, dt):
-    """Array of pairwise distinct small dyadic values (strings for 'U')."""
+def _generic(nshape, dt, vscale=1.0):
+    """Array of pairwise distinct small dyadic values (strings for 'U'), times ``vscale``."""
     n = int(np.prod(nshape))
     if dt == 'U':
         return np.array(['n%d' % i for i in range(n)], dtype='<U4').reshape(nshape)
@@ -401,7 +535,7 @@ def _generic(nshape, dt):
     base = (np.arange(n) * 0.5 - 1.0) * np.where(np.arange(n) % 3 == 1, -1.0, 1.0) + 0.25
     if dt == 'c128':
         base = base + 1j * (np.arange(n)[::-1] * 0.25 - 0.5)
-    return base.astype(NP_DT[dt]).reshape(nshape)
+    return (base * vscale).astype(NP_DT[dt]).reshape(nshape)
 
 
 # ------------------------------------------------------------------------------------------
@@ -436,7 +570,10 @@ def _run_interp(cfg):
     d = len(grid)
     schemes = _axes_schemes(sc, d)
     site = _interp_site(sc, d, dt)
-    cvecs = tuple(np.array(AX[a]) for a in grid)
+    reg = _regime(cfg)
+    vs = reg['vscale']
+    same = functools.partial(_same, unit=vs)
+    cvecs = tuple(np.array(_tr(AX[a], reg)) for a in grid)
     nshape = tuple(len(c) for c in cvecs)
     single_lin = any(s_ == 'linear' and n == 1 for s_, n in zip(schemes, nshape))
     if single_lin:
@@ -446,6 +583,11 @@ def _run_interp(cfg):
     exact = not any(a in INEXACT_AX for a in grid)
     npdt = NP_DT[dt]
     rec.sigs.add('%s|%s|%s' % (site, ','.join(schemes), 'exact' if exact else 'tol'))
+    if cfg.get('reg'):
+        rec.sigs.add('interp|regime %s|%s' % (cfg['reg'], ','.join(sorted(set(schemes)))))
+        if vs != 1.0 and dt in ('i64', 'U'):
+            rec.skipped += 1              # the value regimes are regimes of floating point data
+            return rec.result()
 
     # --- admissibility
     # (a linear axis with a single node is judged AT the node -- node values are reproduced --
@@ -469,7 +611,8 @@ def _run_interp(cfg):
         # out ("implicitly assuming 0 at the next node"); beyond it nothing is documented and
         # the property speaks of "the documented zero-extension just outside": masked, counted.
         p = R.axis_points(c, outside=True, far=cfg['far'],
-                          cells=(1.5, 2.0, 3.0, 10.0) if cfg.get('farout') else ())
+                          cells=(1.5, 2.0, 3.0, 10.0) if cfg.get('farout') else (),
+                          unit=reg['scale'])
         if a in INEXACT_AX and s == 'nearest':
             keep = [t for t in p if not R.is_tie(c, t)]     # a rounded midpoint is not a tie
             rec.skipped += len(p) - len(keep)
@@ -488,14 +631,19 @@ def _run_interp(cfg):
         return rec.result()
     mesh = sparse_meshgrid(*[np.array(p) for p in pts])
     where = 'grid=%s scheme=%s dtype=%s' % (grid, sc, dt)
+    coords = [AX[a] for a in grid]
+    if cfg.get('reg'):
+        where += ' regime=%s (coordinates -> %r + %r * c, values * %r)' % (
+            cfg['reg'], reg['offset'], reg['scale'], vs)
+        coords = [c.tolist() for c in cvecs]
 
     def pt_of(idx):
         return [pts[a][i] for a, i in enumerate(idx)]
 
     # --- (1) interpolation matrix on the mesh: one basis array per node
-    g = _generic(nshape, dt)
+    g = _generic(nshape, dt, vs)
     if dt != 'U':
-        units = [1.0] + ([1j] if dt == 'c128' else [])
+        units = [vs] + ([1j * vs] if dt == 'c128' else [])
         broken = False
         for idx in itertools.product(*[range(n) for n in nshape]):
             for u in units:
@@ -513,13 +661,13 @@ def _run_interp(cfg):
                 if np.asarray(got).dtype != npdt:
                     rec.viol(site, 'result_dtype', '%s: result dtype %s, values dtype %s'
                              % (where, np.asarray(got).dtype, npdt))
-                if not _same(got, want, exact, npdt, ok):
+                if not same(got, want, exact, npdt, ok):
                     bad = np.argwhere(~np.isclose(np.asarray(got), want, rtol=0,
-                                                  atol=0 if exact else _tol(npdt)) & ok)
+                                                  atol=0 if exact else _tol(npdt) * vs) & ok)
                     b = tuple(bad[0]) if len(bad) else (0,) * d
                     rec.viol(site, 'matrix_differs',
                              '%s: weight of node %s (coords %s) at point %s: expected %s, got %s'
-                             % (where, list(idx), [AX[a] for a in grid], pt_of(b), want[b],
+                             % (where, list(idx), coords, pt_of(b), want[b],
                                 np.asarray(got)[b]))
             if broken:
                 break
@@ -552,9 +700,9 @@ def _run_interp(cfg):
             rec.viol(site, '%s_%s' % (name, _exc(ex)), '%s: %r' % (where, ex))
             return None
         rec.evals += 1
-        if not _same(got, want, exact, npdt, ok if np.shape(want) == ok.shape else None):
+        if not same(got, want, exact, npdt, ok if np.shape(want) == ok.shape else None):
             rec.viol(site, '%s_differs' % name, '%s coords %s: expected %s, got %s'
-                     % (where, [AX[a] for a in grid], _short(want), _short(got)))
+                     % (where, coords, _short(want), _short(got)))
         return got
 
     got_mesh = conv('mesh', lambda: I(mesh), want_g)
@@ -581,7 +729,7 @@ def _run_interp(cfg):
             try:
                 got = Il(pa)
                 rec.evals += 1
-                if not _same(got, wl.ravel(), exact, npdt, okf):
+                if not same(got, wl.ravel(), exact, npdt, okf):
                     rec.viol(site, 'point_array_values[%s]_differs' % lname,
                              '%s values strides %s: expected %s, got %s'
                              % (where, gl.strides, _short(wl.ravel()), _short(got)))
@@ -598,9 +746,9 @@ def _run_interp(cfg):
             rec.viol(site, '%s_%s' % (name, _exc(ex)), '%s: %r' % (where, ex))
             return
         rec.evals += 1
-        if not _same(got, wantf, exact, npdt, okf):
+        if not same(got, wantf, exact, npdt, okf):
             rec.viol(site, '%s_differs' % name, '%s coords %s points %s: expected %s, got %s'
-                     % (where, [AX[a] for a in grid], _short(pa), _short(wantf), _short(got)))
+                     % (where, coords, _short(pa), _short(wantf), _short(got)))
 
     conv_flat('point_array', lambda: I(pa))
     conv_flat('point_list', lambda: I(pa.tolist() if d > 1 else pa[0].tolist()))
@@ -628,6 +776,53 @@ def _run_interp(cfg):
     for lay in _layouts(1):
         conv_flat(_lay('point_array_out', lay), lambda: with_out(pa, (pa.shape[1],), lay))
 
+    # order of the points.  The value at a point does not depend on where it stands in the mesh
+    # vector / point array ("results do not depend on whether points are passed singly, as
+    # point arrays or as a mesh grid"; the docstring examples pass unsorted vectors): the given
+    # order has the outside points last; here reversed, rotated, interleaved, outside points
+    # first and outside points in the MIDDLE (first and last entry inside the hull) -- in all
+    # axes at once and in one axis only.
+    inside = [[float(c[0]) <= t <= float(c[-1]) for t in p] for c, p in zip(cvecs, pts)]
+    perms = [R.orderings(len(p), ins) for p, ins in zip(pts, inside)]
+    ident = [list(range(len(p))) for p in pts]
+    variants = []
+    for oname in ('reversed', 'outside in the middle', 'outside first', 'rotated',
+                  'interleaved'):
+        if any(oname in pm for pm in perms):
+            variants.append((oname, [pm.get(oname, ident[a]) for a, pm in enumerate(perms)]))
+        if d > 1:
+            for a in range(d):
+                if oname in perms[a]:
+                    variants.append(('%s, one axis' % oname,
+                                     [perms[b][oname] if b == a else ident[b]
+                                      for b in range(d)]))
+    for oname, pm in variants:
+        pp = [np.array([pts[a][i] for i in pm[a]]) for a in range(d)]
+        wp = want_g[np.ix_(*pm)]
+        okp = ok[np.ix_(*pm)]
+        m = sparse_meshgrid(*pp)
+        o, _ = _out_array(wp.shape, npdt, 'C')
+        pap = np.array(list(itertools.product(*pp))).T.reshape(d, -1)
+        for name, call, w, k in (
+                ('mesh', lambda: I(m), wp, okp),
+                ('mesh_out', lambda: I(m, out=o), wp, okp),
+                ('collocation', lambda: DU.point_collocation(I, m), wp, okp),
+                ('point_array', lambda: I(pap), wp.ravel(), okp.ravel())):
+            if name == 'mesh_out' and 'one axis' in oname:
+                continue
+            try:
+                got = call()
+            except Exception as ex:
+                rec.viol(site, '%s_reordered_%s' % (name, _exc(ex)),
+                         '%s order of the points: %s: %r' % (where, oname, ex))
+                continue
+            rec.evals += 1
+            if not same(got, w, exact, npdt, k):
+                rec.viol(site, '%s_reordered_differs' % name,
+                         '%s coords %s, order of the points: %s, points per axis %s: expected '
+                         '%s, got %s' % (where, coords, oname, [x.tolist() for x in pp],
+                                         _short(w), _short(got)))
+
     # every single point
     first_bad = None
     for n, idx in enumerate(itertools.product(*[range(k) for k in pshape])):
@@ -644,12 +839,12 @@ def _run_interp(cfg):
         if np.ndim(got) != 0:
             rec.viol(site, 'single_point_not_scalar', '%s point %s: got %r' % (where, p, got))
             break
-        if first_bad is None and not _same(np.asarray(got).astype(npdt), want_g[idx], exact,
+        if first_bad is None and not same(np.asarray(got).astype(npdt), want_g[idx], exact,
                                            npdt):
             first_bad = (p, want_g[idx], got)
     if first_bad is not None:
         rec.viol(site, 'single_point_differs', '%s coords %s point %s: expected %s, got %s'
-                 % ((where, [AX[a] for a in grid]) + first_bad))
+                 % ((where, coords) + first_bad))
 
     # mesh grids in which some axes carry a single point
     for k in range(1, d + 1):
@@ -671,7 +866,7 @@ def _run_interp(cfg):
                          '%s mesh shapes %s: %r' % (where, [x.shape for x in m], ex))
                 continue
             rec.evals += 1
-            if not _same(got, w, exact, npdt, ok[np.ix_(*sel)]):
+            if not same(got, w, exact, npdt, ok[np.ix_(*sel)]):
                 rec.viol(site, name + '_differs', '%s mesh shapes %s: expected %s, got %s'
                          % (where, [x.shape for x in m], _short(w), _short(got)))
 
@@ -687,9 +882,9 @@ def _run_interp(cfg):
         # every grid.  Complex data: odl casts the points to complex and numpy's complex
         # division does not guarantee z/z == 1, so off the dyadic grids the stated tolerance
         # applies (rule 3: exact only where the arithmetic is exact).
-        if not _same(got, g, exact or dt != 'c128', npdt):
+        if not same(got, g, exact or dt != 'c128', npdt):
             rec.viol(site, 'node_not_reproduced', '%s coords %s: values %s, at the nodes %s'
-                     % (where, [AX[a] for a in grid], _short(g), _short(got)))
+                     % (where, coords, _short(g), _short(got)))
     except Exception as ex:
         if nshape[0] == 1 and any(n > 1 for n in nshape[1:]):
             rec.viol(MESH_SITE, 'mesh_single_point_first_axis_' + _exc(ex),
@@ -703,16 +898,19 @@ def _run_interp(cfg):
         fac = (1 + 0.5j) if dt == 'c128' else 1.0
 
         def aff(p):
-            return (0.5 + sum(c * t for c, t in zip(coef, p))) * fac
-        inside = [[t for t in R.axis_points(c, outside=False)] for c in cvecs]
+            # affine in the coordinates of the base grid (exactly invertible regime map), so
+            # that the node values are the same dyadic numbers in every regime
+            return (0.5 + sum(c * ((t - reg['offset']) / reg['scale'])
+                              for c, t in zip(coef, p))) * fac * vs
+        inner = [[t for t in R.axis_points(c, outside=False)] for c in cvecs]
         fa = R.sample(cvecs, aff, npdt)
-        wa = R.sample(inside, aff, npdt)
+        wa = R.sample(inner, aff, npdt)
         try:
-            got = _make_interp(sc, fa, cvecs)(sparse_meshgrid(*[np.array(p) for p in inside]))
+            got = _make_interp(sc, fa, cvecs)(sparse_meshgrid(*[np.array(p) for p in inner]))
             rec.evals += 1
-            if not _same(got, wa, exact, npdt):
+            if not same(got, wa, exact, npdt):
                 rec.viol(site, 'affine_not_exact', '%s coords %s: expected %s, got %s'
-                         % (where, [AX[a] for a in grid], _short(wa), _short(got)))
+                         % (where, coords, _short(wa), _short(got)))
         except Exception as ex:
             rec.viol(site, 'affine_' + _exc(ex), '%s: %r' % (where, ex))
     return rec.result()
@@ -936,19 +1134,23 @@ def _sample_space(cfg):
     shp = cfg['shape']
     d = len(shp)
     dt = NP_DT[cfg['dtype']]
+    reg = _regime(cfg)
+
+    def tr(v):
+        return _tr(v, reg)
     if cfg['grid'] == 'ud':
         # cells of length one: nodes k + 1/2
-        sp = odl.uniform_discr([0.0] * d, [float(n) for n in shp], shp, dtype=dt)
-        nodes = [[k + 0.5 for k in range(n)] for n in shp]
+        sp = odl.uniform_discr(tr([0.0] * d), tr([float(n) for n in shp]), shp, dtype=dt)
+        nodes = [tr([k + 0.5 for k in range(n)]) for n in shp]
     elif cfg['grid'] == 'udb':
         # nodes on the boundary: nodes 2k on [0, 2(n-1)]; a single node sits in the middle
-        sp = odl.uniform_discr([0.0] * d, [2.0 * max(n - 1, 1) for n in shp], shp, dtype=dt,
-                               nodes_on_bdry=True)
-        nodes = [[2.0 * k for k in range(n)] if n > 1 else [1.0] for n in shp]
+        sp = odl.uniform_discr(tr([0.0] * d), tr([2.0 * max(n - 1, 1) for n in shp]), shp,
+                               dtype=dt, nodes_on_bdry=True)
+        nodes = [tr([2.0 * k for k in range(n)] if n > 1 else [1.0]) for n in shp]
     else:
         tab = {1: [0.5], 2: [0.0, 3.0], 3: [0.5, 1.0, 3.5], 4: [0.25, 1.0, 2.0, 3.75]}
-        nodes = [tab[n] for n in shp]
-        part = odl.nonuniform_partition(*nodes, min_pt=[0.0] * d, max_pt=[4.0] * d)
+        nodes = [tr(tab[n]) for n in shp]
+        part = odl.nonuniform_partition(*nodes, min_pt=tr([0.0] * d), max_pt=tr([4.0] * d))
         sp = odl.DiscretizedSpace(part, odl.tensor_space(part.shape, dtype=dt))
     return sp, nodes
 
@@ -990,6 +1192,13 @@ def _run_sample(cfg):
         # nodes_on_bdry with one node per axis: where the node sits is C14's business
         got_nodes = [list(map(float, c)) for c in sp.grid.coord_vectors]
         nodes = got_nodes
+    if cfg.get('reg'):
+        # (the comparison stays exact: the reference evaluates the same Python arithmetic at
+        # the coordinates the callable receives)
+        nodes, _ = _own_nodes(rec, sp, nodes, True)
+        where += ' regime=%s (coordinates -> %r + %r * c)' % (
+            cfg['reg'], _regime(cfg)['offset'], _regime(cfg)['scale'])
+        rec.sigs.add('sample|regime %s' % cfg['reg'])
     if style == 'vec':
         # numpy.vectorize without otypes takes the output type from the first point, so a
         # scalar function returning the int 0 there truncates later values (1.5 -> 1).  This is
@@ -1254,22 +1463,48 @@ def _run_resample(cfg):
     d = len(cfg['dom'])
     schemes = _axes_schemes(sc, d)
     npdt = NP_DT[dt]
-    dom, dnodes = _space(cfg['dom'], dt)
-    ran, rnodes = _space(cfg['ran'], dt)
+    reg = _regime(cfg)
+    vs = reg['vscale']
+    same = functools.partial(_same, unit=vs)
+    route = cfg.get('route')
+    dom, dnodes = _space(cfg['dom'], dt, reg)
+    ran, rnodes = _space(cfg['ran'], dt, reg)
     exact = not any(n in INEXACT_P1 for n in cfg['dom'] + cfg['ran'])
+    if cfg.get('reg'):
+        dnodes, exact = _own_nodes(rec, dom, dnodes, exact)
+        rnodes, exact = _own_nodes(rec, ran, rnodes, exact)
     site = 'Resampling[%s]' % dt
+    if route:
+        # "The returned operator is resampling defined in the opposite direction" (inverse);
+        # "adjoint : Resampling operator defined in the opposite direction": the operator from
+        # ``domain`` to ``range`` obtained from the one built the other way round
+        site = 'Resampling.%s' % route
     single_lin = any(s_ == 'linear' and len(P1[nm]) == 1 for s_, nm in zip(schemes, cfg['dom']))
     if single_lin:
         site = 'Resampling[linear on a single-node axis]'
     where = 'domain=%s range=%s on [0,4]^%d interp=%s' % (cfg['dom'], cfg['ran'], d,
                                                           _interp_arg(sc, d))
+    if cfg.get('reg'):
+        where += ' regime=%s (coordinates -> %r + %r * c, values * %r)' % (
+            cfg['reg'], reg['offset'], reg['scale'], vs)
+        rec.sigs.add('resample|regime %s|%s' % (cfg['reg'], ','.join(sorted(set(schemes)))))
+    if route:
+        where += ' op=Resampling(range, domain, interp).%s' % route
     W, ok = R.tensor_matrix(dnodes, rnodes, schemes)       # ran.shape + dom.shape
     rec.skipped += int((~ok).sum())
-    rec.sigs.add('resample|%s|%s' % (','.join(schemes), 'exact' if exact else 'tol'))
+    rec.sigs.add('resample|%s|%s|%s' % (','.join(schemes), 'exact' if exact else 'tol',
+                                        route or 'direct'))
     if not ok.any():
         return rec.result()
     try:
-        op = odl.Resampling(dom, ran, _interp_arg(sc, d))
+        if route:
+            op = getattr(odl.Resampling(ran, dom, _interp_arg(sc, d)), route)
+            if op.domain != dom or op.range != ran:
+                rec.viol(site, 'wrong_spaces', '%s: domain %r range %r'
+                         % (where, op.domain, op.range))
+                return rec.result()
+        else:
+            op = odl.Resampling(dom, ran, _interp_arg(sc, d))
     except Exception as ex:
         rec.viol(site, 'create_' + _exc(ex), '%s: %r' % (where, ex))
         return rec.result()
@@ -1278,7 +1513,7 @@ def _run_resample(cfg):
     site0 = site
     if lead and not single_lin:
         site = 'Resampling[range meshgrid]'
-    units = [1.0] + ([1j] if dt == 'c128' else [])
+    units = [vs] + ([1j * vs] if dt == 'c128' else [])
     for idx in itertools.product(*[range(n) for n in dom.shape]):
         for u in units:
             e = np.zeros(dom.shape, dtype=npdt)
@@ -1290,19 +1525,19 @@ def _run_resample(cfg):
                 rec.viol(site, pre + _exc(ex), '%s: %r' % (where, ex))
                 return rec.result()
             rec.evals += 1
-            if not _same(got, want, exact, npdt, ok):
+            if not same(got, want, exact, npdt, ok):
                 rec.viol(site, 'matrix_differs',
                          '%s domain nodes %s range nodes %s: column of node %s expected %s, '
                          'got %s' % (where, dnodes, rnodes, list(idx), _short(want),
                                      _short(got)))
     if single_lin and rec.first:
         return rec.result()
-    g = _generic(dom.shape, dt)
+    g = _generic(dom.shape, dt, vs)
     want = R.apply_weights(W, g, d).astype(npdt)
     try:
         got = op(dom.element(g)).asarray()
         rec.evals += 1
-        if not _same(got, want, exact, npdt, ok):
+        if not same(got, want, exact, npdt, ok):
             rec.viol(site, 'values_differ', '%s x=%s: expected %s, got %s'
                      % (where, _short(g), _short(want), _short(got)))
     except Exception as ex:
@@ -1316,7 +1551,7 @@ def _run_resample(cfg):
                 got = op(x).asarray()
                 rec.evals += 1
                 rec.sigs.add('resample|input %s' % lay)
-                if not _same(got, want, exact, npdt, ok):
+                if not same(got, want, exact, npdt, ok):
                     rec.viol(site, 'values_differ[input %s]' % lname,
                              '%s x=%s (strides %s): expected %s, got %s'
                              % (where, _short(g), x.asarray().strides, _short(want),
@@ -1335,7 +1570,7 @@ def _run_resample(cfg):
             rec.evals += 1
             if r is not o:
                 rec.viol(site, 'out_not_returned', where)
-            if not _same(o.asarray(), want, exact, npdt, ok):
+            if not same(o.asarray(), want, exact, npdt, ok):
                 rec.viol(site, name + '_differs', '%s x=%s: expected %s, got %s'
                          % (where, _short(g), _short(want), _short(o.asarray())))
         except Exception as ex:
@@ -1348,39 +1583,52 @@ def _run_resample(cfg):
 # kind: deform
 
 def _run_deform(cfg):
+    if cfg['via'] == 'FixedTempl.derivative':
+        return _run_deform_derivative(cfg)
     rec = _Rec()
     sc, dt, via = cfg['scheme'], cfg['dtype'], cfg['via']
     d = len(cfg['space'])
     schemes = _axes_schemes(sc, d)
     npdt = NP_DT[dt]
-    sp, nodes = _space(cfg['space'], dt)
+    reg = _regime(cfg)
+    vs, cs = reg['vscale'], reg['scale']
+    same = functools.partial(_same, unit=vs)
+    sp, nodes = _space(cfg['space'], dt, reg)
     exact = not any(n in INEXACT_P1 for n in cfg['space'])
+    if cfg.get('reg'):
+        nodes, exact = _own_nodes(rec, sp, nodes, exact)
     site = {'function': 'linear_deform', 'FixedTempl': 'LinDeformFixedTempl',
-            'FixedDisp': 'LinDeformFixedDisp'}[via] + '[%s]' % dt
+            'FixedDisp': 'LinDeformFixedDisp',
+            'FixedDisp.inverse': 'LinDeformFixedDisp.inverse'}[via] + '[%s]' % dt
     single_lin = any(s_ == 'linear' and len(P1[nm]) == 1
                      for s_, nm in zip(schemes, cfg['space']))
     if single_lin:
         site = site.split('[')[0] + '[linear on a single-node axis]'
     interp = _interp_arg(sc, d)
     where = 'space=%s on [0,4]^%d interp=%s' % (cfg['space'], d, interp)
+    if cfg.get('reg'):
+        where += (' regime=%s (coordinates and displacements -> %r + %r * c, values * %r)'
+                  % (cfg['reg'], reg['offset'], cs, vs))
+        rec.sigs.add('deform|regime %s|%s' % (cfg['reg'], ','.join(sorted(set(schemes)))))
     rec.sigs.add('deform|%s|%s|%s' % (via, ','.join(schemes), 'exact' if exact else 'tol'))
     vspace = sp.real_space.tangent_bundle
-    g = _generic(sp.shape, dt)
+    g = _generic(sp.shape, dt, vs)
     templ = sp.element(g)
     gridpts = list(itertools.product(*[range(n) for n in sp.shape]))
 
-    fields = [[v] * len(gridpts) for v in itertools.product(DISP, repeat=d)]
+    DISP_ = [v * cs for v in DISP]                # displacements in the units of the regime
+    fields = [[v] * len(gridpts) for v in itertools.product(DISP_, repeat=d)]
     if d <= 2:
         # large displacements: the displaced points lie several cells outside the node hull
         # (nearest: edge value; linear beyond the virtual zero node: undocumented, masked)
-        for v in DISP_FAR:
+        for v in [v * cs for v in DISP_FAR]:
             for a in range(d):
                 fields.append([tuple(v if b == a else 0.0 for b in range(d))] * len(gridpts))
             if d > 1:
                 fields.append([(v,) * d] * len(gridpts))
     cyc = []
     for n in range(len(gridpts)):
-        cyc.append(tuple(DISP[(n + 3 * a) % len(DISP)] for a in range(d)))
+        cyc.append(tuple(DISP_[(n + 3 * a) % len(DISP_)] for a in range(d)))
     fields.append(cyc)
 
     def call(disp, out=None):
@@ -1391,7 +1639,12 @@ def _run_deform(cfg):
         if via == 'FixedTempl':
             op = LinDeformFixedTempl(templ, interp=interp)
             return op(disp) if out is None else op(disp, out=out)
-        op = LinDeformFixedDisp(disp, templ_space=sp, interp=interp)
+        if via == 'FixedDisp.inverse':
+            # "Inverse deformation using ``-v`` as displacement": the inverse of the operator
+            # with the displacement -v deforms by v
+            op = LinDeformFixedDisp(-disp, templ_space=sp, interp=interp).inverse
+        else:
+            op = LinDeformFixedDisp(disp, templ_space=sp, interp=interp)
         return op(templ) if out is None else op(templ, out=out)
 
     last = None
@@ -1423,7 +1676,7 @@ def _run_deform(cfg):
             return rec.result()
         rec.evals += 1
         got = np.asarray(got)
-        if not _same(got, want, exact, npdt, ok):
+        if not same(got, want, exact, npdt, ok):
             rec.viol(site, 'values_differ',
                      '%s nodes %s template %s displacement (per grid point) %s: expected %s, '
                      'got %s' % (where, nodes, _short(g), fld[:4], _short(want), _short(got)))
@@ -1439,7 +1692,7 @@ def _run_deform(cfg):
             templ = sp.element(np.asfortranarray(g))
             got = np.asarray(call(disp))
             rec.evals += 1
-            if not _same(got, want, exact, npdt, ok):
+            if not same(got, want, exact, npdt, ok):
                 rec.viol(site, 'values_differ[template F]',
                          '%s template %s (strides %s) displacement %s: expected %s, got %s'
                          % (where, _short(g), templ.asarray().strides, fld[:4], _short(want),
@@ -1478,7 +1731,7 @@ def _run_deform(cfg):
                 rec.sigs.add('deform|displacement %s' % ('non-C' if nonc else 'C'))
                 got = np.asarray(call(dv))
                 rec.evals += 1
-                if not _same(got, want, exact, npdt, ok):
+                if not same(got, want, exact, npdt, ok):
                     rec.viol(site, 'values_differ[displacement layout]',
                              '%s template %s displacement %s, %s (strides %s): expected %s, '
                              'got %s' % (where, _short(g), fld[:4], vname,
@@ -1490,7 +1743,7 @@ def _run_deform(cfg):
                     o = sp.element(np.zeros(sp.shape, dtype=npdt))
                 call(dv, out=o)
                 rec.evals += 1
-                if not _same(np.asarray(o), want, exact, npdt, ok):
+                if not same(np.asarray(o), want, exact, npdt, ok):
                     rec.viol(site, 'out_call_differs[displacement layout]',
                              '%s displacement %s, %s: expected %s, got %s'
                              % (where, fld[:4], vname, _short(want), _short(np.asarray(o))))
@@ -1540,18 +1793,96 @@ def _run_deform(cfg):
                     rec.viol(site, 'out_not_returned', '%s (%s)' % (where, lay))
                 if guard is not None and not guard():
                     rec.viol(site, 'out_wrote_outside', where)
-                if not _same(res, want, exact, npdt, ok):
+                if not same(res, want, exact, npdt, ok):
                     rec.viol(site, name + '_differs',
                              '%s template %s displacement (per grid point) %s, out layout %s: '
                              'expected %s, got %s' % (where, _short(g), fld[:4], lay,
                                                       _short(want), _short(res)))
-                elif via == 'function' and not _same(np.asarray(r), want, exact, npdt, ok):
+                elif via == 'function' and not same(np.asarray(r), want, exact, npdt, ok):
                     rec.viol(site, name + '_returned_differs', '%s: expected %s, returned %s'
                              % (where, _short(want), _short(r)))
             except Exception as ex:
                 rec.viol(site, '%s_%s' % (name, _exc(ex)),
                          '%s ndim=%d: out of the shape of the template (%s): %r'
                          % (where, d, lay, ex))
+    return rec.result()
+
+
+def _run_deform_derivative(cfg):
+    """LinDeformFixedTempl.derivative: "W_I'(v)(u)(x) = grad I(x + v(x))^T u(x)" (class Notes).
+
+    The gradient field G of the template does not depend on v; it is taken from the derivative
+    at v = 0 (how odl discretises the gradient is not C15's business).  The vector field of the
+    derivative at v must then be G evaluated at the displaced points with the scheme of the
+    operator, i.e. the reference weights applied to G.
+    """
+    rec = _Rec()
+    sc, dt = cfg['scheme'], cfg['dtype']
+    d = len(cfg['space'])
+    schemes = _axes_schemes(sc, d)
+    npdt = NP_DT[dt]
+    reg = _regime(cfg)
+    vs, cs = reg['vscale'], reg['scale']
+    sp, nodes = _space(cfg['space'], dt, reg)
+    exact = not any(n in INEXACT_P1 for n in cfg['space'])
+    if cfg.get('reg'):
+        nodes, exact = _own_nodes(rec, sp, nodes, exact)
+    site = 'LinDeformFixedTempl.derivative[%s]' % dt
+    interp = _interp_arg(sc, d)
+    where = 'space=%s on [0,4]^%d interp=%s' % (cfg['space'], d, interp)
+    if cfg.get('reg'):
+        where += (' regime=%s (coordinates and displacements -> %r + %r * c, values * %r)'
+                  % (cfg['reg'], reg['offset'], cs, vs))
+    rec.sigs.add('deform|derivative|%s|%s' % (','.join(schemes), cfg.get('reg')))
+    templ = sp.element(_generic(sp.shape, dt, vs))
+    gridpts = list(itertools.product(*[range(n) for n in sp.shape]))
+    try:
+        op = LinDeformFixedTempl(templ, interp=interp)
+        G = [np.array(c.asarray()) for c in op.derivative(op.domain.zero()).vecfield]
+    except Exception as ex:
+        rec.viol(site, _exc(ex), '%s derivative at the zero displacement: %r' % (where, ex))
+        return rec.result()
+    unit = max([vs] + [float(np.max(np.abs(c))) for c in G])
+    DISP_ = [v * cs for v in DISP]
+    fields = [[v] * len(gridpts) for v in itertools.product(DISP_, repeat=d)]
+    fields.append([tuple(DISP_[(n + 3 * a) % len(DISP_)] for a in range(d))
+                   for n in range(len(gridpts))])
+    for fld in fields:
+        want = [np.zeros(sp.shape, dtype=npdt) for _ in range(d)]
+        ok = np.ones(sp.shape, dtype=bool)
+        comps = [np.zeros(sp.shape) for _ in range(d)]
+        for n, idx in enumerate(gridpts):
+            p = [nodes[a][idx[a]] + fld[n][a] for a in range(d)]
+            for a in range(d):
+                comps[a][idx] = fld[n][a]
+            if any(s == 'nearest' and not exact and R.is_tie(nodes[a], p[a])
+                   for a, s in enumerate(schemes)):
+                ok[idx] = False
+                continue
+            w = R.point_weights(nodes, p, schemes)
+            if w is None:
+                ok[idx] = False
+            else:
+                for a in range(d):
+                    want[a][idx] = (w * G[a]).sum()
+        rec.skipped += int((~ok).sum())
+        if not ok.any():
+            continue
+        try:
+            vf = op.derivative(op.domain.element(comps)).vecfield
+            got = [np.asarray(c.asarray()) for c in vf]
+        except Exception as ex:
+            rec.viol(site, _exc(ex), '%s displacement %s: %r' % (where, fld[0], ex))
+            return rec.result()
+        rec.evals += 1
+        for a in range(d):
+            if not _same(got[a], want[a], exact, npdt, ok, unit):
+                rec.viol(site, 'gradient_field_differs',
+                         '%s nodes %s displacement (per grid point) %s: component %d of the '
+                         'vector field of derivative(v) is not the vector field of '
+                         'derivative(0) = %s evaluated at the displaced points: expected %s, '
+                         'got %s' % (where, nodes, fld[:4], a, _short(G[a]), _short(want[a]),
+                                     _short(got[a])))
     return rec.result()
 
 
